@@ -99,3 +99,25 @@ Print Assumptions C02_stale_item_rejected.
 Theorem C02_same_values_verdict : forall F fs ca cb, same_values F fs ca cb -> same_valuesb F fs ca cb = true.
 Proof. exact same_values_verdict. Qed.
 Print Assumptions C02_same_values_verdict.
+
+(* ---- the full field model of Fields.v as the leaves of the configuration (instance ConfigFields.v) ---- *)
+From Cinco Require Import Fields FieldsLemmas ConfigFields ConfigFieldsLemmas.
+
+(* the leaf law `leaf_roundtrip` discharged from C05's basic_roundtrip on its domain: cfr_validate is the field model's
+   validate restricted to fields outside the F13 region and values in rt_dom (typed list/dict leaves hold a container,
+   untyped containers are builtin, typed-dict keys are distinct hashable scalars); outside it answers Unmodelled, so
+   `deep_valid ... cfr_validate` (the premise below) states the domain *)
+Theorem C02_fields_leaf_roundtrip : forall orc f x, cfr_validate orc f x = Ok x ->
+  exists b b', cf_to_basic f x = Ok b /\ cf_to_python orc f b = Ok b' /\ cfr_validate orc f b' = Ok x.
+Proof. exact cfr_leaf_roundtrip. Qed.
+Print Assumptions C02_fields_leaf_roundtrip.
+
+Theorem C02_fields_tree_roundtrip : forall orc vt dyn vs fs c,
+  deep_valid fleaf (cfr_validate orc) fl_flag (vrun vt) dyn vs fs c ->
+  forall w w0 fresh, build_cfg fleaf (cf_default orc) fl_callable w fs = (w0, fresh) ->
+  exists t w' c', to_tree fleaf cf_to_basic fl_sensitive py_strlen None fs c = Ok t /\
+    load_tree fleaf (cfr_validate orc) (cf_to_python orc) (cf_default orc) fl_callable fl_flag (vrun vt) t true w0 [] fresh dyn vs fs
+      = (w', c', OOk) /\
+    same_values fleaf fs c' c /\ deep_valid fleaf (cfr_validate orc) fl_flag (vrun vt) dyn vs fs c'.
+Proof. exact cf_tree_roundtrip. Qed.
+Print Assumptions C02_fields_tree_roundtrip.
